@@ -44,6 +44,9 @@ type vWriter struct {
 	Writes []vWrite
 	// outcome of the k-th call: drawn by next()
 	Outcome func(w *vWrite) error
+	// Respond models the API server's answer to a successful write: it may update the object handed to the call
+	// (the client decodes the response into it) and whatever stores the harness keeps.
+	Respond func(obj client.Object, w *vWrite)
 }
 
 func asUnstructured(obj client.Object) *unstructured.Unstructured {
@@ -89,8 +92,12 @@ func (w *vWriter) Patch(_ context.Context, obj client.Object, patch client.Patch
 	if err != nil {
 		return err
 	}
-	return w.record(vWrite{Verb: "patch", Key: client.ObjectKeyFromObject(obj), GVK: u.GroupVersionKind(), Obj: u,
+	err = w.record(vWrite{Verb: "patch", Key: client.ObjectKeyFromObject(obj), GVK: u.GroupVersionKind(), Obj: u,
 		PatchType: patch.Type(), Data: data, DryRun: len(po.DryRun) > 0, Force: po.Force != nil && *po.Force, FieldMgr: po.FieldManager})
+	if err == nil && w.Respond != nil {
+		w.Respond(obj, &w.Writes[len(w.Writes)-1])
+	}
+	return err
 }
 
 func (w *vWriter) Delete(_ context.Context, obj client.Object, opts ...client.DeleteOption) error {
